@@ -566,9 +566,10 @@ pub fn run(line: &str) -> Option<(String, Vec<String>)> {
                             // colour of fully transparent pixels is unconstrained
                             if !(transparent && k < 3) && oracle.len() < 4 {
                                 oracle.push(format!(
-                                    "constant: level {li} pixel ({x},{y}) channel {k} is {} but the image is uniformly {}",
+                                    "constant: level {li} pixel ({x},{y}) channel {k} is {} but the image is uniformly {} (off by {})",
                                     show(prec, v),
-                                    show(prec, col[k])
+                                    show(prec, col[k]),
+                                    off_by(prec, v, col[k])
                                 ));
                             }
                         }
@@ -601,8 +602,9 @@ pub fn run(line: &str) -> Option<(String, Vec<String>)> {
                         };
                         if !ok {
                             oracle.push(format!(
-                                "opaque: level {li} pixel ({x},{y}) alpha is {} in a fully opaque image",
-                                show(prec, v)
+                                "opaque: level {li} pixel ({x},{y}) alpha is {} in a fully opaque image (off by {})",
+                                show(prec, v),
+                                off_by(prec, v, prec.max_raw())
                             ));
                             break 'o;
                         }
@@ -729,6 +731,14 @@ fn first_diff(a: &[Img], b: &[Img], skip: Option<usize>) -> Option<String> {
 // ---------------------------------------------------------------------------------------------------------
 // generator
 
+/// distance between two raw samples in output units (integers) / as a float difference (f32)
+fn off_by(prec: Prec, a: u32, b: u32) -> String {
+    match prec {
+        Prec::F32 => format!("{:e}", (prec.val(a) - prec.val(b)).abs()),
+        _ => format!("{}", (a as i64 - b as i64).abs()),
+    }
+}
+
 fn const_content(rng: &mut Rng, prec: Prec, chan: Channels) -> String {
     let mut col = [0u32; 4];
     for k in 0..4 {
@@ -820,6 +830,9 @@ pub fn gen(seed: u64, thorough: bool) -> Vec<String> {
         (65, 64), (64, 65), (129, 129), (5, 5), (3, 3), (9, 3), (17, 1), (1, 33), (33, 17), (255, 255), (100, 100),
     ];
 
+    // very long rows / columns: levels generated from the source average 500..4000 taps
+    let very_extreme: Vec<(u32, u32)> = vec![(1000, 3), (3, 1000), (2047, 2), (2, 2047), (997, 1), (1, 997), (4096, 1), (1, 1025), (511, 2)];
+
     let any_cfg = |rng: &mut Rng| {
         let chan = *rng.pick(&CHANS);
         let prec = *rng.pick(&PRECS);
@@ -860,6 +873,26 @@ pub fn gen(seed: u64, thorough: bool) -> Vec<String> {
         }
     }
 
+    // ---- A2. very long rows / columns with boundary constants and opaque content, every precision and filter
+    for &(w, h) in &very_extreme {
+        for prec in PRECS {
+            for f in FILTERS {
+                let m = prec.max_raw();
+                let consts: Vec<u32> = match prec {
+                    Prec::F32 => vec![m, (1.0f32 / 3.0).to_bits()],
+                    _ => vec![m, m - 1, m / 3 * 2, m / 2],
+                };
+                for v in consts {
+                    out.push(line(w, h, Channels::Grayscale, prec, f, false, "al", &format!("const:{v}:{v}:{v}:{m}"), 1));
+                    if thorough {
+                        out.push(line(w, h, Channels::Rgba, prec, f, true, "o1", &format!("const:{v}:{v}:{v}:{m}"), 1));
+                    }
+                }
+                out.push(line(w, h, Channels::Rgba, prec, f, rng.chance(1, 2), "al", "opaque", rng.next() >> 16));
+            }
+        }
+    }
+
     // ---- B. size sweep
     let mut sizes: Vec<((u32, u32), u32)> = Vec::new(); // (size, configurations per size)
     if thorough {
@@ -867,6 +900,7 @@ pub fn gen(seed: u64, thorough: bool) -> Vec<String> {
         sizes.extend(grid.iter().map(|s| (*s, 120)));
         sizes.extend(pow2.iter().map(|s| (*s, if s.0 * s.1 > 16384 { 40 } else { 150 })));
         sizes.extend(extreme.iter().map(|s| (*s, 200)));
+        sizes.extend(very_extreme.iter().map(|s| (*s, 120)));
     } else {
         sizes.extend(small.iter().map(|s| (*s, 12)));
         for _ in 0..700 {
@@ -874,6 +908,7 @@ pub fn gen(seed: u64, thorough: bool) -> Vec<String> {
         }
         sizes.extend(pow2.iter().map(|s| (*s, if s.0 * s.1 > 16384 { 3 } else { 10 })));
         sizes.extend(extreme.iter().map(|s| (*s, 16)));
+        sizes.extend(very_extreme.iter().map(|s| (*s, 24)));
     }
     for ((w, h), k) in sizes {
         for _ in 0..k {
